@@ -361,6 +361,13 @@ def families(tier='quick', seed=0):
     for p in REGEX_REWRITE:
         add('regex-rewrite', p, single('f', S(p)))
     add('regex-rewrite', 'list', single('f', L(S('?.*a'), S('?b.*'))))
+    # members of a quantified list that become the same text once the wildcards are stripped: they stay distinct members
+    add('regex-rewrite', 'of2 twins', {'idents': {'A': M((K('f', ('of', 2)), L(S('?.*a'), S('?a.*'))))}, 'cond': ('id', 'A')})
+    add('regex-rewrite', 'of2 twins+1', {'idents': {'A': M((K('f', ('of', 2)), L(S('?.*a'), S('?a.*'), S('?b'))))}, 'cond': ('id', 'A')})
+    add('regex-rewrite', 'all twins', {'idents': {'A': M((K('f', 'all'), L(S('?.*a'), S('?a.*'))))}, 'cond': ('id', 'A')})
+    # anchored literal regexes whose letters have non-ASCII case-fold partners (k: U+212A, s: U+017F)
+    for p in ('i?^ks', 'i?ks$', 'i?^sk$', '?^ks'):
+        add('regex-rewrite', p, single('f', S(p)))
     add('regex-rewrite', 'or', {'idents': {'A': M((K('f'), S('?.*a'))), 'B': M((K('f'), S('?b.*')))}, 'cond': ('or', ('id', 'A'), ('id', 'B'))})
     # I: or-of-ands over shared fields (matrix), merges across identifiers (shake)
     m1 = ('seq', [M((K('f'), S('a')), (K('g'), S('b'))), M((K('f'), S('c')), (K('g'), S('d'))), M((K('f'), S('e')))])
@@ -398,6 +405,11 @@ def families(tier='quick', seed=0):
                                                         'cond': ('or', ('or', ('and', ('id', 'A'), ('cmp', '==', ('int', 'g'), ('int', 'k'))), ('id', 'B')), ('id', 'C'))})
     add('matrix', 'row with unshared field', {'idents': {'A': M((K('f'), S('a*')), (K('h'), S('b'))), 'B': M((K('g'), ('i', 1))), 'C': M((K('g'), ('i', 2)))},
                                              'cond': ('or', ('or', ('and', ('id', 'A'), ('cmp', '==', ('int', 'g'), ('ci', 3))), ('id', 'B')), ('id', 'C'))})
+    # one text under two relations in one or-group (identifiers, a sequence), also case-insensitively
+    add('shake', 'A or B or C one text two kinds', {'idents': {'A': M((K('f'), S('ab*'))), 'B': M((K('f'), S('*ab'))), 'C': M((K('g'), S('x')))},
+                                                    'cond': ('or', ('or', ('id', 'A'), ('id', 'B')), ('id', 'C'))})
+    add('shake', 'seq one text two kinds', {'idents': {'A': ('seq', [M((K('f'), S('ab'))), M((K('f'), S('*ab*'))), M((K('g'), S('x')))])}, 'cond': ('id', 'A')})
+    add('shake', 'seq one text two kinds i', {'idents': {'A': ('seq', [M((K('f'), S('iAb*'))), M((K('f'), S('i*AB'))), M((K('g'), S('x')))])}, 'cond': ('id', 'A')})
     add('shake', 'A or B or C repeated needle', {'idents': {'A': M((K('f'), S('a*'))), 'B': M((K('f'), S('a*'))), 'C': M((K('f'), S('*b')))},
                                                  'cond': ('or', ('or', ('id', 'A'), ('id', 'B')), ('id', 'C'))})
     add('modifier', '{not(f), not(g), h}', {'idents': {'A': M((K('f', 'not'), S('a')), (K('g', 'not'), S('b')), (K('h'), S('c')))}, 'cond': ('id', 'A')})
@@ -483,7 +495,8 @@ MUST = {'single/"a\'', 'single/i\'a"', 'single/"',
         'list-mixed/*,>1', 'list-mixed/>=1,<=5', 'quant-short/all:>=1,<=5', 'modifier/str(f) float constant',
         'regex/i?^\\D+$', 'regex/i?\\Sa', 'modifier/{not(f), not(g), h}',
         'modifier/multi-word keys', 'modifier/all(multi-word key)', 'modifier/int(multi-word key)',
-        'modifier/wide-space key', 'modifier/str(wide-space key)', 'scalar/u64max', 'scalar/i64max+1', 'quant-ident/all(tabled)', 'quant-ident/of(tabled,2)', 'quant-ident/all(part-tabled)', 'quant-ident/of(part-tabled,2)'}
+        'modifier/wide-space key', 'modifier/str(wide-space key)', 'scalar/u64max', 'scalar/i64max+1', 'regex-rewrite/of2 twins', 'regex-rewrite/of2 twins+1', 'regex-rewrite/all twins', 'regex-rewrite/i?^ks', 'regex-rewrite/i?ks$',
+        'shake/A or B or C one text two kinds', 'shake/seq one text two kinds', 'shake/seq one text two kinds i', 'quant-ident/all(tabled)', 'quant-ident/of(tabled,2)', 'quant-ident/all(part-tabled)', 'quant-ident/of(part-tabled,2)'}
 
 
 def thin(tpl, quota, rnd):
